@@ -248,6 +248,26 @@ func (b *blame) addBlames(curItems []*queueItem) (bool, error) {
 		return false, err
 	}
 
+	// Like git (pass_blame), a parent whose file is identical to ours takes the
+	// blame for every line, whatever its position among the parents: the other
+	// parents are not consulted at all.
+	if len(parents) > 1 {
+		currentHash, err := blobHash(curItem.path, curItem.Commit)
+		if err != nil {
+			return false, err
+		}
+		for i, prev := range parents {
+			prevHash, err := blobHash(prev.Path, prev.Commit)
+			if err != nil {
+				return false, err
+			}
+			if currentHash == prevHash {
+				parents = parents[i : i+1]
+				break
+			}
+		}
+	}
+
 	anyPushed := false
 	for parnetNo, prev := range parents {
 		currentHash, err := blobHash(curItem.path, curItem.Commit)
